@@ -48,10 +48,10 @@ type Scenario struct {
 	Stop      bool       `json:"stop"`
 	Kill      bool       `json:"kill"`
 	Timeout   bool       `json:"timeout"`
-	Seed      int64      `json:"seed"`    // schedule seed (random driver)
-	StopAt    int        `json:"stopAt"`  // move index at which the stop request is issued
-	Moves     []string   `json:"moves"`   // model-driven schedule (optional): thread names to release
-	Weights   [5]float64 `json:"weights"` // bias per thread class L W T S P
+	Seed      int64      `json:"seed"`             // schedule seed (random driver)
+	StopAt    int        `json:"stopAt"`           // move index at which the stop request is issued
+	Moves     []string   `json:"moves"`            // model-driven schedule (optional): thread names to release
+	Weights   [5]float64 `json:"weights"`          // bias per thread class L W T S P
 	Init      []string   `json:"init,omitempty"`   // retry of a recorded run: recorded status per step
 	SnapAt    int        `json:"snapAt,omitempty"` // first run of a retry pair: take the "killed here" status snapshot at this move
 }
@@ -125,7 +125,7 @@ type schedRun struct {
 	graph                               *scheduler.ExecutionGraph
 	snap                                []string
 	stuck                               bool
-	free                                bool // free-running mode: gates only log
+	free                                bool      // free-running mode: gates only log
 	ctxUpper                            time.Time // the run context (deadline) was created before this instant
 	dirty                               bool      // something other than the loop moved since the loop was last at loop.top
 	lStale                              bool      // the loop would only repeat an identical iteration
